@@ -300,6 +300,49 @@ Section Tramp.
         destruct (run_loop (f r2) w2 cs2) as [[[r3 w3] cs3] t3]. rewrite <- app_assoc. reflexivity.
   Qed.
 
+  (* with _require_await, a call that ends in an exception before any await is unchanged too *)
+  Lemma spawn_transparent_fix g : (forall r, g = Ret r -> no_await r = r) -> peq (greenlet_spawn true g) g.
+  Proof.
+    intros H. destruct g as [r | i k | inner k].
+    - unfold greenlet_spawn. cbn. rewrite (H r eq_refl). constructor.
+    - apply spawn_transparent_require. exact I.
+    - apply spawn_transparent_require. exact I.
+  Qed.
+
+  (* sync-equivalence: the same blocking run from every world.  It contains [peq], is a congruence
+     for [bind], and identifies a shield with the plain call *)
+  Definition seqv (p q : prog) : Prop := forall w, run_sync p w = run_sync q w.
+
+  Lemma run_sync_bind p f : forall w,
+    run_sync (bind p f) w =
+    let '(r1, w1, t1) := run_sync p w in
+    let '(r, w2, t2) := run_sync (f r1) w1 in (r, w2, t1 ++ t2).
+  Proof.
+    induction p as [r | i k IH | inner IHi k IHk]; intros w; cbn.
+    - destruct (run_sync (f r) w) as [[r2 w2] t2]. reflexivity.
+    - destruct (step w i) as [x w1]. rewrite IH.
+      destruct (run_sync (k x) w1) as [[r1 w2] t1]. destruct (run_sync (f r1) w2) as [[r3 w3] t3]. reflexivity.
+    - destruct (run_sync inner w) as [[r1 w1] t1]. rewrite IHk.
+      destruct (run_sync (k false r1) w1) as [[r2 w2] t2]. destruct (run_sync (f r2) w2) as [[r3 w3] t3].
+      rewrite app_assoc. reflexivity.
+  Qed.
+
+  Lemma seqv_refl p : seqv p p.
+  Proof. intros w; reflexivity. Qed.
+  Lemma seqv_trans p q r : seqv p q -> seqv q r -> seqv p r.
+  Proof. intros A B w. rewrite A. apply B. Qed.
+  Lemma peq_seqv p q : peq p q -> seqv p q.
+  Proof. intros H w. apply run_sync_peq; auto. Qed.
+  Lemma seqv_bind p p' f f' : seqv p p' -> (forall r, seqv (f r) (f' r)) -> seqv (bind p f) (bind p' f').
+  Proof.
+    intros A B w. rewrite !run_sync_bind, A. destruct (run_sync p' w) as [[r1 w1] t1]. rewrite B. reflexivity.
+  Qed.
+  Lemma seqv_shield inner inner' k k' :
+    seqv inner inner' -> (forall r, seqv (k false r) (k' r)) -> seqv (Shield inner k) (bind inner' k').
+  Proof.
+    intros A B w. cbn. rewrite run_sync_bind, A. destruct (run_sync inner' w) as [[r1 w1] t1]. rewrite B. reflexivity.
+  Qed.
+
   (* the decisions left over never contain more cancellations than the ones supplied *)
   Lemma run_loop_ncancel p : forall w cs,
     let '(_, _, cs', _) := run_loop p w cs in ncancel cs' <= ncancel cs.
@@ -335,3 +378,4 @@ Arguments run_loop {IO V E W R} step cancel_step suspends cancelled p w cs.
 Arguments spawn_loop {IO V E R} no_await require switch_occurred g.
 Arguments greenlet_spawn {IO V E R} no_await require fn.
 Arguments switches {IO V E R} p.
+Arguments seqv {IO V E W R} step p q.
